@@ -164,6 +164,20 @@ def encrypt (C : Crypto) (s : Sess) (r : Reader) : Sess × Bytes :=
   let ps := packets r
   ({ s with encCnt := s.encCnt + ps.length }, renderFrames C s.encKey (frameDescs s.encCnt ps))
 
+/-- a source reader that may FAIL (an error other than the end of the data) after it has delivered its chunks -/
+structure FReader where
+  chunks : Reader
+  fails : Bool
+
+/-- `Encrypt` (F70 repair): when the source fails nothing is sealed and no frame is counted — the bytes it delivered
+    until then are not the message. `none`: the error of the source is returned. -/
+def encryptF (C : Crypto) (s : Sess) (r : FReader) : Sess × Option Bytes :=
+  if r.fails then (s, none) else ((encrypt C s r.chunks).1, some (encrypt C s r.chunks).2)
+
+/-- before the repair: `packetsWithSizeFromBytes` looked at the number of bytes only; a failing source ended the message -/
+def encryptFOld (C : Crypto) (s : Sess) (r : FReader) : Sess × Option Bytes :=
+  ((encrypt C s r.chunks).1, some (encrypt C s r.chunks).2)
+
 -- ---------------------------------------------------------------------------------------------
 -- Decrypt
 
@@ -189,10 +203,10 @@ def parseFrame : Bytes → Parsed
   | [_] => .err .unexpectedEof
   | a :: b :: r1 =>
     match readN (unle16 a b) r1 with
-    | .error e => .err e
-    | .ok (body, r2) =>
+    | .error _ => .err .unexpectedEof      -- F70b: the end of the input behind the length field is inside a frame,
+    | .ok (body, r2) =>                    --   `io.EOF` from these two reads is reported as `io.ErrUnexpectedEOF`
       match readN 16 r2 with
-      | .error e => .err e
+      | .error _ => .err .unexpectedEof
       | .ok (tag, r3) => .frame (unle16 a b) body tag r3
 
 theorem parseFrame_rest_lt {inp : Bytes} {len : Nat} {body tag rest : Bytes}
